@@ -57,6 +57,19 @@ PROPS["C01"] = {
     ],
 }
 
+PROPS["C18"] = {
+    "technique": "small-scope exhaustive schedule enumeration (harness-owned gates) + rapid-sampled larger schedules; oracle = outcome vector",
+    "level_text": "Every outcome vector in {success,error,not-found}^n, every concurrency limit and every completion order feasible for that limit is enumerated (n<=4 quick, n<=6 thorough) by gating each job on its own channel, plus rapid samples for n up to 9; the result must be a successful job's value when one exists, else the complete error list; the call must return and leave no goroutine behind. Exploration level with an exhaustive small scope.",
+    "level_note": "The harness controls start/finish of every job but not the instant at which FirstSuccess reads a result, so two completions may be observed in swapped order; the oracle is order-independent, so this cannot cause a false alarm. Cancelled request contexts are outside the property.",
+    "rule": ("enumeration: outcome vectors x limits {-1,1..n} x DFS over completion orders where at most `limit` started jobs are in flight; sampled unit: rapid draws n in 4..9, outcomes, limit and a feasible order. "
+             "non-trivial = >=2 jobs with mixed outcomes where the first job to complete is not a success; distinct by (outcomes, limit, order)"),
+    "assumptions": ["Go runtime scheduling of the released goroutines"],
+    "units": [
+        {"name": "exhaustive", "pkg": ".", "run": "TestVfC18Exhaustive", "kind": "plain", "checks": 0, "shards": T(4, 16), "timeout": T(600, 3000), "env": {"VERIF_C18_MAXN": T(4, 6)}},
+        {"name": "sampled", "pkg": ".", "run": "TestVfC18Rapid", "checks": T(2000, 100000), "shards": T(4, 16), "timeout": T(600, 3000)},
+    ],
+}
+
 
 # properties not (yet) claimed by a check; kept current by hand
 NOT_APPLICABLE = [
